@@ -15,6 +15,7 @@ from props.common import (
     siblings_isomorphic,
 )
 
+KEEP = []  # every private helper of the registry is spliced into its callers
 TITLE = "C06 one storage per (kind, key) in the sharded registry."
 CONFIGS = ["test-profile", "util-registry"]
 REG = "metrics_util::registry::Registry"
@@ -90,8 +91,8 @@ def run(ctx):
     chk = ctx.check
     u = ctx.crate("metrics_util")
     crate_stats(chk, u)
-    chk.rule("C06.a", "provenance+RANGE shard arithmetic: all three shard vectors are built from the same shard_count = next_power_of_two(..) (>= 1), shard_mask = shard_count - 1; get_hash_and_shard_for_<kind> indexes self.<kind>s with (key.hashable() as usize & self.shard_mask) and returns that hash", floor=6)
-    chk.rule("C06.b", "provenance one hash, one shard, one key: in every keyed operation the hash given to from_key_hashed_nocheck and the shard locked come from the same get_hash_and_shard_for_<kind>(key) call, and the key argument is the same key", floor=9)
+    chk.rule("C06.a", "provenance+RANGE shard arithmetic: all three shard vectors are sized by the same count = (..).next_power_of_two() (>= 1, evaluated once) and shard_mask = count - 1", floor=2)
+    chk.rule("C06.b", "provenance one hash, one shard, one key: in every keyed operation (helpers spliced in) the hash given to from_key_hashed_nocheck is key.hashable() of the key parameter, the key argument is that key, and every shard locked is self.<kind>s[key.hashable() & self.shard_mask] of the operation's own kind", floor=9)
     chk.rule("C06.c", "MPT check-and-insert in one critical section: shard maps are only extended through raw_entry_mut().from_key_hashed_nocheck(..).or_insert_with under the shard's write guard; the read guard is dropped before write() is called; the inserted pair is (key.clone(), storage.<kind>(key)); never two shard locks at once; every lock result recovers from poisoning the same way", floor=12)
     chk.rule("C06.d", "KIND+SIB kind triplets: the three variants of each operation family are isomorphic modulo the kind and mention only their own kind; clear() clears all three maps; delete_* returns true exactly on the Occupied edge after removing; retain_* passes the predicate through un-negated; get_*_handles = visit_* + clone", floor=30)
     chk.trust("std::sync::RwLock", "hashbrown raw-entry API (from_key_hashed_nocheck compares with K: Eq)", "usize::next_power_of_two")
@@ -110,12 +111,11 @@ def run(ctx):
             r = strip_sym(Sym(hf[0]).local(0))
             chk.ob("C06.e", hf[0].path, sym_is_call(r, "Key::get_hash"), "hashable() = self.get_hash()", hf[0].loc())
 
-    # ---------------- C06.a
-    sc = u.fn("metrics_util::registry::shard_count")
-    if need(chk, "C06.a", "registry::shard_count", sc):
-        r = strip_sym(Sym(sc).local(0))
-        ok = sym_is_call(r, "next_power_of_two")
-        chk.ob("C06.a", sc.path, ok, "shard_count() = (..).next_power_of_two()  (a power of two >= 1)" if ok else f"shard_count() returns {sym_str(r)[:120]} — not a power of two by construction", sc.loc())
+    # ---------------- C06.a  (private helpers such as shard_count()/get_hash_and_shard_for_<kind>() are spliced into
+    # their callers before the rules run, so the rules speak about primitives only)
+    def is_count(x):
+        return sym_is_call(strip_sym(x), "next_power_of_two")
+
     ctors = [f for f in u.fns if f.dk == "AssocFn" and f.name in ("new", "atomic") and strip_generics(f.j.get("impl_self", "")).startswith(REG)]
     if len(ctors) < 2:
         chk.unrecognised("C06.a", "<anchor> Registry::{new,atomic}", f"found {len(ctors)}")
@@ -128,39 +128,44 @@ def run(ctx):
             mask = strip_sym(fields["shard_mask"])
             if mask[0] == "field":
                 mask = strip_sym(mask[1])
-            okm = mask[0] == "bin" and mask[1].startswith("Sub") and sym_is_call(mask[2], "registry::shard_count") and strip_sym(mask[3])[:3] == ("const", "int", 1)
-            takes = [c for c in nonforeign_calls(f) if c.is_("Iterator::take")]
-            okt = len(takes) == 3 and all(sym_is_call(arg_syms(c)[1], "registry::shard_count") for c in takes)
-            # same call (one shard_count() evaluation)
-            n_sc = len([c for c in nonforeign_calls(f) if c.is_("registry::shard_count")])
-            vecs_ok = all(sym_is_call(fields[k + "s"], "Iterator::collect") for k in KINDS)
-            ok = okm and okt and n_sc == 1 and vecs_ok
-            detail = f"mask={sym_str(mask)[:60]} takes={len(takes)} shard_count() calls={n_sc}"
-        chk.ob("C06.a", f.path, ok, "three vectors of shard_count shards, shard_mask = shard_count - 1, one shard_count() evaluation" if ok else f"shard vectors / mask not built from one power-of-two shard count ({detail})", f.loc())
-    shard_fns = {}
-    for k in KINDS:
-        f = one_method(chk, "C06.a", u, REG, f"get_hash_and_shard_for_{k}")
-        if not f:
-            continue
-        shard_fns[k] = f
-        ret = strip_sym(Sym(f).local(0))
-        ok = ret[0] == "agg" and ret[1] == "tuple" and len(ret[3]) == 2
-        detail = sym_str(ret)[:160]
-        if ok:
-            h, sh = strip_sym(ret[3][0]), strip_sym(ret[3][1])
-            okh = sym_is_call(h, "Hashable::hashable") and is_param(h[2][0], 1)
-            oks = sym_is_call(sh, "get_unchecked", "Index::index", "<impl [T]>::get") and f"'{k}s'" in repr(sh[2][0])
-            idx = strip_sym(sh[2][1]) if oks else None
-            oki = False
-            if idx is not None and idx[0] == "bin" and idx[1] == "BitAnd":
-                l, r = strip_sym(idx[2]), strip_sym(idx[3])
-                def is_hash(x):
-                    return x[0] == "cast" and sym_is_call(x[1], "Hashable::hashable") or sym_is_call(x, "Hashable::hashable")
-                def is_mask(x):
-                    return x[0] == "field" and x[2] == "shard_mask" and is_param(x[1], 0)
-                oki = (is_hash(l) and is_mask(r)) or (is_hash(r) and is_mask(l))
-            ok = okh and oks and oki
-        chk.ob("C06.a", f.path, ok, f"(hash, &self.{k}s[hash & shard_mask]) with hash = key.hashable()" if ok else f"shard selection is not self.{k}s[key.hashable() & self.shard_mask]: {detail}", f.loc())
+            okm = mask[0] == "bin" and mask[1].startswith("Sub") and is_count(mask[2]) and strip_sym(mask[3])[:3] == ("const", "int", 1)
+            # every shard vector has exactly `count` elements: its symbolic value is a collect()/vec of something
+            # bounded by the same count (take(count), 0..count, with_capacity(count)/resize_with(count))
+            def sized_by_count(v):
+                return any(is_count(x) for x in sym_walk(v))
+            okv = all(sized_by_count(fields[k + "s"]) for k in KINDS)
+            n_sc = len([c for c in nonforeign_calls(f) if c.is_("next_power_of_two")])
+            ok = okm and okv and n_sc == 1
+            detail = f"mask={sym_str(mask)[:60]} vectors sized by the count={okv} next_power_of_two() evaluations={n_sc}"
+        chk.ob("C06.a", f.path, ok, "three vectors of count shards, shard_mask = count - 1, count = one (..).next_power_of_two() evaluation (a power of two >= 1)" if ok else f"shard vectors / mask not built from one power-of-two shard count ({detail})", f.loc())
+
+    def is_hash(x):
+        x = strip_sym(x)
+        if x[0] == "cast":
+            x = strip_sym(x[1])
+        return sym_is_call(x, "Hashable::hashable") and is_param(sym_through(x[2][0]), 1)
+
+    def shard_of(sh, k):
+        """sh is `self.<k>s[key.hashable() & self.shard_mask]` -> None, else the reason"""
+        sh = strip_sym(sh)
+        if not sym_is_call(sh, "get_unchecked", "Index::index", "<impl [T]>::get", "Option<T>::unwrap", "Option<T>::expect"):
+            return f"locks {sym_str(sh)[:80]} — not a shard of self.{k}s"
+        while sym_is_call(sh, "Option<T>::unwrap", "Option<T>::expect"):
+            sh = strip_sym(sh[2][0])
+        base = strip_sym(sym_through(sh[2][0], "Deref::deref", "Vec<T, A>::as_slice", "Index::index"))
+        if not (base[0] == "field" and base[2] == f"{k}s" and is_param(base[1], 0)):
+            return f"shard taken from {sym_str(base)[:60]}, not self.{k}s"
+        idx = strip_sym(sh[2][1])
+        if not (idx[0] == "bin" and idx[1] == "BitAnd"):
+            return f"shard index is {sym_str(idx)[:80]}, not hash & shard_mask"
+        l, r = strip_sym(idx[2]), strip_sym(idx[3])
+
+        def is_mask(x):
+            return x[0] == "field" and x[2] == "shard_mask" and is_param(x[1], 0)
+
+        if not ((is_hash(l) and is_mask(r)) or (is_hash(r) and is_mask(l))):
+            return f"shard index is {sym_str(idx)[:80]}, not key.hashable() & self.shard_mask"
+        return None
 
     # ---------------- C06.b / C06.c on keyed operations
     fam = {"get_or_create": {}, "get": {}, "delete": {}, "visit": {}, "retain": {}, "handles": {}}
@@ -174,29 +179,27 @@ def run(ctx):
         for k, f in fam[famname].items():
             b = f.body
             sy = Sym(f)
-            hs = [c for c in f.body.calls() if c.is_(f"get_hash_and_shard_for_{k}")]
-            others = [c for c in f.body.calls() if "get_hash_and_shard_for_" in (c.callee or "") and c.bb not in {h.bb for h in hs}]
             lookups = [c for c in f.body.calls() if c.is_("from_key_hashed_nocheck", "from_hash", "from_key")]
-            ok = len(hs) == 1 and not others and lookups and is_param(arg_syms(hs[0])[0], 0) and is_param(arg_syms(hs[0])[1], 1)
-            detail = ""
+            locks = lock_sites(f)
+            ok = bool(lookups) and bool(locks)
+            detail = "" if ok else f"lookups={len(lookups)} lock sites={len(locks)}"
             if ok:
                 for c in lookups:
                     a = arg_syms(c)
                     if not c.is_("from_key_hashed_nocheck"):
                         ok, detail = False, f"lookup through {callee_method_name(c)}"
                         break
-                    h = strip_sym(a[1])
-                    if not (h[0] == "field" and h[2] == "0" and sym_is_call(h[1], f"get_hash_and_shard_for_{k}")):
-                        ok, detail = False, f"hash argument is {sym_str(h)[:80]}"
+                    if not is_hash(a[1]):
+                        ok, detail = False, f"hash argument is {sym_str(strip_sym(a[1]))[:80]}, not key.hashable()"
                         break
-                    if not is_param(a[2], 1):
+                    if not is_param(sym_through(a[2]), 1):
                         ok, detail = False, f"key argument is {sym_str(a[2])[:80]}"
                         break
-                for c, mode, guard, handling in lock_sites(f):
-                    sh = strip_sym(arg_syms(c)[0])
-                    if not (sh[0] == "field" and sh[2] == "1" and sym_is_call(sh[1], f"get_hash_and_shard_for_{k}")):
-                        ok, detail = False, f"locks {sym_str(sh)[:80]} instead of the shard returned for this key"
-            chk.ob("C06.b", f.path, ok, f"one get_hash_and_shard_for_{k}(key); {len(lookups)} lookup(s) use its hash, its shard and the same key" if ok else f"hash/shard/key of a lookup do not come from one get_hash_and_shard_for_{k}(key) call ({detail})", f.loc())
+                for c, mode, guard, handling in locks:
+                    why = shard_of(arg_syms(c)[0], k)
+                    if why:
+                        ok, detail = False, why
+            chk.ob("C06.b", f.path, ok, f"{len(lookups)} lookup(s) use hash = key.hashable() and the same key; {len(locks)} lock(s) take self.{k}s[hash & self.shard_mask]" if ok else f"hash/shard/key of a lookup do not belong together ({detail})", f.loc())
             all_poison += [(f, c, handling) for c, mode, guard, handling in lock_sites(f)]
     # C06.c get_or_create
     for k, f in fam["get_or_create"].items():
@@ -285,10 +288,6 @@ def run(ctx):
             kind_consistent(chk, "C06.d", f, k)
         if len(byk) == 3:
             siblings_isomorphic(chk, "C06.d", byk, f"Registry::{famname}_*")
-    if len(shard_fns) == 3:
-        for k, f in shard_fns.items():
-            kind_consistent(chk, "C06.d", f, k)
-        siblings_isomorphic(chk, "C06.d", shard_fns, "Registry::get_hash_and_shard_for_*")
     # clear
     clr = one_method(chk, "C06.d", u, REG, "clear")
     if clr:
